@@ -7,10 +7,12 @@ max_exec_per_call=0, unbounded block cache, cold start) is deviated in at most D
     jit_maxline        in 1..N                 (block length limit: disasmEngine lines_wd)
     max_exec_per_call  in 1..N                 (0 is the default; per-call execution limit of the C loop)
     cache size         in {2, 3, 4}            (BoundedDict eviction; for gcc the deleteCB / dlclose path)
-    warm start         in {twice, prefix, mid} (same jitter: a full run / the first two dispatches / at most 60 blocks
+    warm start         in {twice, prefix, mid, observed} (same jitter: a full run / the first two dispatches / at most 60 blocks
                                                 of a run entered at the middle instruction happened before;
                                                 registers, memory and exception flags are put back, translated
-                                                blocks stay)
+                                                blocks stay; `observed` = `twice` plus a logging breakpoint put on
+                                                the middle instruction between the two runs, which must fire as
+                                                often as the single-step sequence contains that address)
 
 Oracle: the single-step run of the same backend (jit_maxline=1, max_exec_per_call=1, cold, unbounded) gives the
 sequence of executed instruction addresses (one dispatch per instruction) and the final state.  Every
@@ -26,7 +28,7 @@ LEVEL = "exploration"
 ENGINE = "dev"
 RULE = ("every configuration that deviates from the default schedule (jit_maxline=50, max_exec_per_call=0, unbounded cache, "
         "cold) in at most two of the dimensions block length 1..N, per-call limit 1..N, cache size {2,3,4}, warm start "
-        "{twice, prefix, mid}, for each program of a fixed x86_32 list and each backend (python, gcc); a case is non-trivial "
+        "{twice, prefix, mid, observed}, for each program of a fixed x86_32 list and each backend (python, gcc); a case is non-trivial "
         "when its dispatch trace differs from the default schedule's trace of that program/backend or a block was evicted "
         "or re-used from an earlier run")
 LEVEL_TEXT = ("Complete enumeration of all schedules within deviation bound 2 on the real jitter (C runtime rebuilt from the "
@@ -47,7 +49,7 @@ ARCH = "x86_32"
 BACKENDS = ("python", "gcc")
 DEV_BOUND = 2
 CACHE_SIZES = (2, 3, 4)
-WARM = ("twice", "prefix", "mid")
+WARM = ("twice", "prefix", "mid", "observed")
 PREFIX_DISPATCHES = 2
 MID_DISPATCHES = 60
 N_QUICK, N_THOROUGH = 2, 5
@@ -538,7 +540,7 @@ def run_config(prog, backend, cfg):
     warm_obs = None
     if opt["warm"]:
         snap = C.snapshot(jit)
-        if opt["warm"] == "twice":
+        if opt["warm"] in ("twice", "observed"):
             warm_obs = C.execute(jit, start, max_dispatch=MAX_DISPATCH)
         elif opt["warm"] == "prefix":
             warm_obs = C.execute(jit, start, max_dispatch=PREFIX_DISPATCHES)
@@ -549,8 +551,14 @@ def run_config(prog, backend, cfg):
             warm_obs = C.execute(jit, offs[len(offs) // 2], max_dispatch=MID_DISPATCHES)
             jit.jit.set_options(max_exec_per_call=opt["me"])
         C.restore(jit, snap, skip_pages=(J.CODE,))
-    obs = C.execute(jit, start, max_dispatch=MAX_DISPATCH)
+    bps = ()
+    if opt["warm"] == "observed":
+        # the blocks were translated (and possibly evicted) without this observer: a logging breakpoint on the
+        # middle instruction, added between the two runs, must see every execution of that address
+        bps = ((offs[len(offs) // 2], "observer", True),)
+    obs = C.execute(jit, start, breakpoints=bps, max_dispatch=MAX_DISPATCH)
     out = C.summary(obs)
+    out["observer"] = (bps[0][0], len(obs.bp_log)) if bps else None
     out["evicted"] = evicted[0]
     out["warm_dispatches"] = len(warm_obs.dispatch) if warm_obs else 0
     return out
@@ -560,7 +568,7 @@ def failures(ref, s):
     """How the run summary @s contradicts the single-step reference @ref: list of (kind, detail)."""
     C = _load()["C"]
     out = []
-    comps = C.diff(ref, s)
+    comps = [c for c in C.diff(ref, s) if c != "bp_log"]
     if ref["pc"] != s["pc"]:
         comps.append("pc")
     if ref["term"] != s["term"]:
@@ -574,6 +582,10 @@ def failures(ref, s):
         out.append(("trace", "not-a-subsequence"))
     elif t[-1] != r[-1]:
         out.append(("trace", "last-address"))
+    if s.get("observer"):
+        addr, hits = s["observer"]
+        if hits != r.count(addr):
+            out.append(("trace", "observer-missed" if hits < r.count(addr) else "observer-spurious"))
     return out
 
 
@@ -614,6 +626,11 @@ def judge(prog, backend, cfg, get):
                     "single-step run ended %s at pc=%s [already so with: %s]" % (
                         prog[0], backend, _cfg_text(cfg), C.describe_diff(ref, s, ("single-step", "this")) or "jitter pc / termination only",
                         s["term"], hex(s["pc"]), ref["term"], hex(ref["pc"]), _cfg_text(culprit)))
+        elif detail.startswith("observer"):
+            what = ("program %s on %s with %s: the logging breakpoint added on %s after the warm-up run fired %d time(s), "
+                    "the single-step run executes that address %d time(s) [already so with: %s]" % (
+                        prog[0], backend, _cfg_text(cfg), hex(s["observer"][0]), s["observer"][1],
+                        ref["dispatch"].count(s["observer"][0]), _cfg_text(culprit)))
         else:
             what = ("program %s on %s with %s: dispatch trace %s is not an order-preserving subsequence with the same "
                     "first and last address of the executed instruction sequence %s [%s; already so with: %s]" % (
